@@ -122,6 +122,10 @@ pub fn crypto_kx_client_session_keys(
 
     crypto_scalarmult(&mut shared_secret, client_sk, server_pk);
 
+    if shared_secret.iter().fold(0u8, |acc, b| acc | b) == 0 {
+        return Err(dryoc_error!("invalid server public key (all-zero shared secret)"));
+    }
+
     crypto_kx(rx, tx, client_pk, server_pk, shared_secret)
 }
 
@@ -139,6 +143,10 @@ pub fn crypto_kx_server_session_keys(
     let mut shared_secret = [0u8; CRYPTO_SCALARMULT_BYTES];
 
     crypto_scalarmult(&mut shared_secret, server_sk, client_pk);
+
+    if shared_secret.iter().fold(0u8, |acc, b| acc | b) == 0 {
+        return Err(dryoc_error!("invalid client public key (all-zero shared secret)"));
+    }
 
     crypto_kx(tx, rx, client_pk, server_pk, shared_secret)
 }
